@@ -459,6 +459,45 @@ pub fn run(out_prefix: &str, shards: usize, family: &str, seed: u64, scale: usiz
                 st.events += 1;
                 shard += 1;
             }
+            // long patterns around the thresholds of the capacity rule (8 * longest pattern vs the
+            // 64 KiB default; powers of two): several rolls of the DEFAULT buffer, the long pattern
+            // straddling each of them; the stream's matches are compared with the in-memory ones
+            let long_lens: &[usize] = if std::env::var("ACVERIF_STREAM_LONG").is_ok() { &[8192, 8193, 16384, 16385, 32768] } else { &[] };
+            for (bi, &plen) in long_lens.iter().enumerate() {
+                let long: Vec<u8> = (0..plen).map(|j| b"abcdefg"[j % 7]).collect();
+                let pats: Pats = vec![long.clone(), b"zz".to_vec()];
+                let mut c = Ctx::new(&pats, "std", ["top-nc", "top-c"][bi % 2]);
+                c.sk = "unanchored";
+                let ac = build_top(&c).expect("build");
+                let cl = ctx_line(&mut out, shard, &c, ac.max_pattern_len());
+                st.contexts += 1;
+                let cap = std::cmp::max(8 * plen, 64 * 1024);
+                let n = 3 * cap + 1000;
+                let mut stream = vec![b'.'; n];
+                for k in 1..=2usize {
+                    let pos = k * cap - plen / 2 - k;
+                    stream[pos..pos + plen].copy_from_slice(&long);
+                }
+                for pos in (100..n - 2).step_by(7919) {
+                    if stream[pos] == b'.' && stream[pos + 1] == b'.' { stream[pos] = b'z'; stream[pos + 1] = b'z'; }
+                }
+                let script: Vec<usize> = if bi % 2 == 0 { vec![] } else { vec![50_000, 3, 20_000] };
+                let rdr = ScriptedReader { data: stream.clone(), pos: 0, script: script.clone(), exact: false, calls: 0,
+                    fail_at: None, fail_kind: 0, log: Rc::new(RefCell::new(vec![])) };
+                aho_corasick::verif::set_buffer_capacity(None);
+                let g = guarded(|| {
+                    let mut v: Vec<usize> = vec![];
+                    for item in ac.stream_find_iter(rdr) {
+                        match item { Ok(m) => v.extend([m.pattern().as_usize(), m.start(), m.end()]), Err(_) => { v.push(usize::MAX >> 40); break; } }
+                    }
+                    v
+                });
+                let mem: Vec<usize> = ac.find_iter(&stream).flat_map(|m| [m.pattern().as_usize(), m.start(), m.end()]).collect();
+                let (end, res) = match g { Ok(v) => ("ok", v), Err(_) => ("panic", vec![]) };
+                out.put(shard, &json!({"ev":"stream_mem","c":cl,"len":n,"script":script,"res":res,"mem":mem,"end":end,"longest":plen}));
+                st.events += 1;
+                shard += 1;
+            }
             for i in 0..(40 * scale) {
                 let pool = gen::POOLS[rg.gen_range(0..gen::POOLS.len())];
                 let pats = gen::random_pats_over(&mut rg, pool, 6, 6, false);
